@@ -47,6 +47,9 @@ for c in ${@:-$ID}; do
   cls=$(echo "$out" | grep -o "class=[^ ]*" | sort -u | tr '\n' ' ')
   echo "check $c ${TIER:-quick}: exit=$rc $cls" >> $R
 done
+git -C /repo apply -R $D/patch.diff 2>/dev/null || git -C /repo checkout -- .
 git -C /repo checkout -- .
-git -C /repo status --short | grep -v "^??" >> $R
+# a patch may add files: nothing untracked may stay behind in /repo
+for f in $(git -C /repo status --short | grep "^??" | awk '{print $2}'); do echo "removing leftover /repo/$f" >> $R; rm -rf "/repo/$f"; done
+git -C /repo status --short >> $R
 cat $R
